@@ -195,8 +195,14 @@ func checkC10(c *ctx) {
 			return
 		}
 	}
+	runtime.GC()
 	n := c.n(120, 3000)
 	for i := 0; i < n; i++ {
+		// the collector is off so that pooled builders survive from build to build; between
+		// histories the garbage is released by hand (the race-instrumented binary is memory-hungry)
+		if i%20 == 19 {
+			runtime.GC()
+		}
 		h := genHistory(c)
 		kinds := map[string]bool{}
 		var events []sx.V
